@@ -414,7 +414,7 @@ def soak(pid, suite, tier, seed, driver):
             r = subprocess.run(["bash", "-c", cmd], capture_output=True, text=True)
             out = []
             if r.returncode != 0:
-                with open(L) as fl, open(M) as fm, open(H) as fh:
+                with open(L, errors="replace") as fl, open(M, errors="replace") as fm, open(H, errors="replace") as fh:   # a broken build can print any bytes
                     for l, m_, h in zip(fl, fm, fh):
                         if m_ != h:
                             out.append((l.strip(), legs2[(w + rnd) % len(exes)].name, h.strip(), m_.strip()))
